@@ -613,7 +613,13 @@ fn c19_multi(cx: &mut Ctx, parts: &[(String, char, String, String)], pk: PK) {
     // parts: (intro, code, payload, terminator)
     let mut seq = String::new();
     let (mut want_title, mut want_icon) = (String::from("T0"), String::from("I0"));
-    for (intro, code, payload, term) in parts {
+    for (pi, (intro, code, payload, term)) in parts.iter().enumerate() {
+        if pi > 0 && payload.starts_with("again") {
+            // between two identical strings the title is changed by a non-OSC route (RIS)
+            seq.push_str("\x1bc");
+            want_title = String::new();
+            want_icon = String::new();
+        }
         seq.push_str(&format!("{}{};{}{}", intro, code, payload, term));
         match code {
             '0' => {
@@ -772,7 +778,15 @@ impl Check for C19Check {
                     }
                 }
             }
-            cx.stats.exhaustive_parts.insert("all ordered pairs of OSC strings over 7 codes x 4 payloads on one parser (terminators / introducers rotated), every fifth extended to a triple".into());
+            // the same OSC twice with a RIS in between (payloads starting with "again" trigger it)
+            for c1 in ['0', '1', '2'] {
+                for t in terms {
+                    let p = ("\x1b]".to_string(), c1, "again and again".to_string(), t.to_string());
+                    c19_multi(cx, &[p.clone(), p.clone()], PK::Chars);
+                    c19_multi(cx, &[p.clone(), p.clone(), p.clone()], PK::Bytes);
+                }
+            }
+            cx.stats.exhaustive_parts.insert("all ordered pairs of OSC strings over 7 codes x 4 payloads on one parser (terminators / introducers rotated), every fifth extended to a triple; identical strings repeated across a RIS".into());
         }
         while !cx.out_of_time() {
             if !cx.begin_group("osc random") {
